@@ -516,3 +516,14 @@ def setattr_expansions(func):
             for n in names:
                 out.append((st, tgt, n, srcobj, val))
     return out, unknown
+
+
+def resolve_name(du, e, st, depth=6):
+    """Follow a local name to its defining expression while it has exactly one reaching definition that is a plain assignment:
+    a named intermediate step is the same computation as the nested expression.  Returns (expression, statement it stands in)."""
+    while isinstance(e, ast.Name) and depth > 0:
+        rd = du.reaching(st, e.id)
+        if len(rd) != 1 or rd[0].how != "assign" or rd[0].value is None:
+            break
+        e, st, depth = rd[0].value, rd[0].stmt, depth - 1
+    return e, st
